@@ -98,8 +98,12 @@ package tq
 // and on failure leaves that path untouched.  The "already exists" arm relies
 // on the store being valid (other git-lfs processes only put hash-valid files
 // there).
+// C06: the hand-over callback authOkFunc (it releases the next worker, which
+// ends in a sync.WaitGroup.Done) runs at most once per transfer, however often
+// a rejected resume makes download start over.
 //@ func (*basicDownloadAdapter).download
-//@   props C02 C09
+//@   props C02 C09 C06
+//@   ensures @C06 fncalls() <= old(fncalls()) + 1
 //@   requires @inv t != nil && dlFile != nil && t.Path == objpath(t.Oid)
 //@   requires @inv fexists(t.Path) ==> hexsha(fdata(t.Path)) == t.Oid
 //@   requires !isobj(fpath(dlFile))
@@ -107,7 +111,7 @@ package tq
 //@   requires rrest(iface(dlFile)) == ""
 //@   requires fromByte == 0 ==> fdata(fpath(dlFile)) == ""
 //@   requires fromByte > 0 ==> hash != nil && is_sha256(hash) && wbuf(hash) == fdata(fpath(dlFile))
-//@   modifies fresh, ghost fexists[t.Path], ghost fdata[t.Path], ghost fexists[fpath(dlFile)], ghost fdata[fpath(dlFile)], ghost wbuf, ghost rrest, ghost lastcopy
+//@   modifies fresh, ghost fexists[t.Path], ghost fdata[t.Path], ghost fexists[fpath(dlFile)], ghost fdata[fpath(dlFile)], ghost wbuf, ghost rrest, ghost lastcopy, ghost fncalls
 //@   ensures result == nil ==> fexists(old(t.Path)) && hexsha(fdata(old(t.Path))) == old(t.Oid)
 //@   ensures result != nil ==> fexists(old(t.Path)) == old(fexists(t.Path)) && fdata(old(t.Path)) == old(fdata(t.Path))
 //@   decreases fromByte
@@ -139,7 +143,8 @@ package tq
 // stale partial file if there is one (its bytes are re-hashed first) and then
 // runs download() under its precondition.
 //@ func (*basicDownloadAdapter).DoTransfer
-//@   props C02 C09
+//@   props C02 C09 C06
+//@   ensures @C06 fncalls() <= old(fncalls()) + 1
 //@   requires @inv t != nil && t.Path == objpath(t.Oid)
 //@   requires @inv fexists(t.Path) ==> hexsha(fdata(t.Path)) == t.Oid
 //@   ensures result == nil ==> fexists(old(t.Path)) && hexsha(fdata(old(t.Path))) == old(t.Oid)
@@ -255,7 +260,8 @@ package tq
 //@   modifies fresh
 //@   ensures isauxdir(result)
 //@ func (*SSHAdapter).download
-//@   props C02 C09
+//@   props C02 C09 C06
+//@   ensures @C06 fncalls() <= old(fncalls()) + 1
 //@   requires @inv t != nil && a.fs != nil && a.transfer != nil && t.Path == objpath(t.Oid)
 //@   requires @inv fexists(t.Path) ==> hexsha(fdata(t.Path)) == t.Oid
 //@   ensures result == nil ==> fexists(old(t.Path)) && hexsha(fdata(old(t.Path))) == old(t.Oid)
@@ -301,9 +307,11 @@ package tq
 // downloaded is re-hashed by git-lfs itself and only then renamed to the
 // object path; a failed transfer leaves the object path alone.
 //@ func (*customAdapter).DoTransfer
-//@   props C02 C09
+//@   props C02 C09 C06
+//@   ensures @C06 fncalls() <= old(fncalls()) + 1
 //@   requires @inv t != nil && t.Path == objpath(t.Oid)
 //@   requires @inv fexists(t.Path) ==> hexsha(fdata(t.Path)) == t.Oid
+//@   loop 1 invariant @C06 fncalls() <= old(fncalls()) + 1 && (!authCalled ==> fncalls() == old(fncalls()))
 //@   loop 1 invariant !complete ==> fexists(t.Path) == old(fexists(t.Path)) && fdata(t.Path) == old(fdata(t.Path))
 //@   loop 1 invariant complete && a.direction == Download ==> fexists(t.Path) && hexsha(fdata(t.Path)) == t.Oid
 //@   loop 1 invariant complete && a.direction != Download ==> fexists(t.Path) == old(fexists(t.Path)) && fdata(t.Path) == old(fdata(t.Path))
@@ -421,7 +429,8 @@ package tq
 // done after the server answered the PUT with a 2xx status and the verify
 // call-back, made for this very transfer, succeeded.
 //@ func (*basicUploadAdapter).DoTransfer
-//@   props C03
+//@   props C03 C06
+//@   ensures @C06 fncalls() <= old(fncalls()) + 1
 //@   requires @inv a != nil && t != nil && a.apiClient != nil
 //@   at call tools.NewFileBodyWithCallback:1 assert fpath(arg0__) == t.Path && arg1__ == t.Size
 //@   at call (*tq.adapterBase).newHTTPRequest:1 assert arg1__ == "PUT" && arg2__ == rel
